@@ -154,7 +154,8 @@ func TestNegativeChecks(t *testing.T) {
 		}
 	})
 
-	t.Run("erc20-trackers-cannot-fail", func(t *testing.T) {
+	// (characterised "ERC20 trackers cannot fail" on the pinned tree; repaired by fix 2f3f4e2, now the opposite holds)
+	t.Run("erc20-trackers-can-fail-since-2f3f4e2", func(t *testing.T) {
 		w := EthWorld("ercfail", 4, 3)
 		x, err := harness.StartRun(w)
 		if err != nil {
@@ -172,8 +173,8 @@ func TestNegativeChecks(t *testing.T) {
 		d := x.R.Dump()
 		t.Logf("third NO vote on ERC20 lock: code=%d %s -> %s", res.Txs[0].Code, res.Txs[0].Log, trackerAt(d, lname))
 		t.Logf("third NO vote on ERC20 redeem: code=%d %s -> %s ; owner TTC=%s (debited %s at submission, never refunded)", res.Txs[1].Code, res.Txs[1].Log, trackerAt(d, rname), balanceOf(d, A.Addr, "TTC"), "4000000000000000000")
-		if hasPrefixKey(d, "ethfailed_") {
-			t.Errorf("an ERC20 tracker reached the failed store: the handler has no such path")
+		if !hasPrefixKey(d, "ethfailed_") {
+			t.Errorf("no ERC20 tracker reached the failed store after three NO votes")
 		}
 	})
 
